@@ -568,6 +568,7 @@ var faultOps = []faultOp{
 	}},
 	{"directive-location", "directive-location", func(t *rapid.T, st *SchemaTree) ([]string, bool) {
 		// a directive declared for executable use only, applied at a type-system location
+		nDirs, nOrder := len(st.Doc.Directives), len(st.Order)
 		st.Doc.Directives = append(st.Doc.Directives, &ref.DirectiveDef{Name: "execonly", Locations: []string{"FIELD", "QUERY"}})
 		addTop(st, "directive", len(st.Doc.Directives)-1)
 		dir := &ref.Directive{Name: "execonly"}
@@ -640,6 +641,9 @@ var faultOps = []faultOp{
 				}
 			}
 		}
+		// no target: take the definitions added above back
+		st.Doc.Directives = st.Doc.Directives[:nDirs]
+		st.Order = st.Order[:nOrder]
 		return nil, false
 	}},
 	{"directive-required-argument", "directive-required-argument", func(t *rapid.T, st *SchemaTree) ([]string, bool) {
@@ -708,9 +712,13 @@ func FaultNames() []string {
 func ApplySchemaFault(t *rapid.T, st *SchemaTree, idx int) (SchemaFault, bool) {
 	for k := 0; k < len(faultOps); k++ {
 		op := faultOps[(idx+k)%len(faultOps)]
+		before := JoinPlain(SchemaLexemes(*st, Canon))
 		if inv, ok := op.f(t, st); ok {
 			pruneEmptyExtensions(st)
 			return SchemaFault{Name: op.name, Rule: op.rule, Involved: inv}, true
+		}
+		if JoinPlain(SchemaLexemes(*st, Canon)) != before {
+			panic("harness: schema fault operator " + op.name + " changed the schema although it reports no target")
 		}
 	}
 	return SchemaFault{}, false
